@@ -146,6 +146,10 @@ def parse_type(s):
             return ("bag", parse_type(args[0]))
         if head == "Seq":
             return ("seq", parse_type(args[0]))
+        if head == "ASeq":
+            # a list as (length, array index -> element): same meaning as Seq, but quantified index invariants stay in the array fragment
+            # (z3's sequence theory does not instantiate them); supports [], append, len, [i], zip in a comprehension -- everything else is refused
+            return ("aseq", parse_type(args[0]))
         if head == "Opt":
             return ("opt", parse_type(args[0]))
         if head == "Dict":
@@ -158,6 +162,14 @@ def parse_type(s):
             return ("obj", args[0].strip())
         if head == "Opaque":
             return ("opaque", args[0].strip())
+        if head == "Lam":
+            # closures of ONE lambda site stored in a collection (defunctionalised): an uninterpreted sort whose values carry the
+            # lambda's captured DEFAULT-argument values (projection functions lamcap_<sort>_<k>); free variables of the body are NOT
+            # captured -- they are read from the defining frame when the closure is applied (Python's late binding)
+            caps = tuple(parse_type(a) for a in args if a.strip())
+            name = "Lam_" + "_".join("".join(ch for ch in repr(c) if ch.isalnum()) for c in caps)
+            LAM_CAPS[name] = caps
+            return ("opaque", name)
         raise TypeError(s)
     if s in DATA:
         return ("data", s)
@@ -180,6 +192,13 @@ def _split_args(s):
             cur += ch
     out.append(cur)
     return out
+
+
+LAM_CAPS = {}    # sort name of a Lam[...] type -> types of the captured default arguments
+
+
+def lam_cap_fn(name, k):
+    return z3.Function(f"lamcap_{name}_{k}", opaque_sort(name), sort_of(LAM_CAPS[name][k]))
 
 
 OBJ_LAYOUT = {}  # class name -> {field: type}   (mutable records such as Rule, RuleConfiguration)
@@ -231,6 +250,8 @@ def fresh(t, base="v"):
                      z3.Const(fresh_name(base + "_val"), z3.ArraySort(sort_of(t[1]), sort_of(t[2])))))
     if k == "tuple":
         return V(t, tuple(fresh(ti, base) for ti in t[1]))
+    if k == "aseq":
+        return V(t, (z3.Const(fresh_name(base + "_len"), z3.IntSort()), z3.Const(fresh_name(base + "_at"), z3.ArraySort(z3.IntSort(), sort_of(t[1])))))
     if k == "obj":
         return V(t, {f: fresh(ft, base + "_" + f) for f, ft in OBJ_LAYOUT[t[1]].items()})
     if k == "closure":
@@ -306,6 +327,11 @@ def coerce(v: V, t) -> V:
         for e in v.x:
             arr = z3.Store(arr, to_term(coerce(e, t[1])), z3.BoolVal(True))
         return V(t, arr)
+    if k == "aseq" and v.t[0] == "list":
+        arr = z3.Const(fresh_name("aseq0"), z3.ArraySort(z3.IntSort(), sort_of(t[1])))
+        for i, e in enumerate(v.x):
+            arr = z3.Store(arr, z3.IntVal(i), to_term(coerce(e, t[1])))
+        return V(t, (z3.IntVal(len(v.x)), arr))
     if k == "seq" and v.t[0] == "list":
         s = z3.Empty(sort_of(t))
         for e in v.x:
